@@ -292,25 +292,28 @@ def correspond(ctx):
             ctx.case(('transform', dom, n), nontrivial=n > 1 and dom != (-1.0, 1.0))
     # (b) methods: coefficients evaluated exactly on the user's x reproduce the baseline; poly solves the normal equations
     doms = DOMAINS if ctx.thorough else [DOMAINS[i] for i in sorted(rng.choice(len(DOMAINS), 6, replace=False))]
+    strat = {}
     for dom in doms:
         for (name, extra) in METHODS_1D:
             for order in ((0, 1, 2, 3, 5, 8) if ctx.thorough else (int(rng.choice([0, 1])), int(rng.choice([2, 3])), int(rng.choice([5, 8])))):
                 n = int(rng.choice([order + 2, 25, 60]))
-                kind = ['uniform', 'random', 'unsorted'][int(rng.integers(0, 3))]
+                # stratified, not random: every method meets every (x kind, user weights or not) combination in turn
+                k = strat[name] = strat.get(name, ctx.seed) + 1
+                kind = ['uniform', 'random', 'unsorted'][k % 3]
                 if name == 'dietrich':
                     kind = 'uniform' if kind == 'random' and n < 10 else kind
                     n = max(n, 30)
                 x = xs_for(rng, dom, n, kind)
                 y = y_for(rng, x)
                 wts = None
-                if name not in ('dietrich',) and rng.random() < 0.4:
+                if name not in ('dietrich',) and (k // 3) % 2 == 0:
                     wts = np.round(rng.uniform(0.05, 1, n) * 64) / 64
                     if rng.random() < 0.3:
                         wts[rng.random(n) < 0.2] = 0
                 kw = dict(extra, poly_order=order, return_coef=True)
                 if wts is not None:
                     kw['weights'] = wts
-                meta = {'method': name, 'kw': {k: (v.tolist() if isinstance(v, np.ndarray) else v) for k, v in kw.items()},
+                meta = {'method': name, 'kw': {kk: (v.tolist() if isinstance(v, np.ndarray) else v) for kk, v in kw.items()},
                         'x': x.tolist(), 'y': y.tolist(), 'two_d': False}
                 try:
                     with np.errstate(all='ignore'):
